@@ -19,7 +19,7 @@ pub fn msg_class(msg: &str) -> String {
         let v: String = v.chars().take_while(|c| c.is_alphanumeric()).collect();
         format!("unwrap-on-sampler-error({v})")
     } else if msg.contains("index out of bounds") {
-        "index-out-of-bounds(empty-start-list)".into()
+        "index-out-of-bounds".into()
     } else {
         msg.chars()
             .take(60)
@@ -106,14 +106,14 @@ pub fn c08_oracle(case: &PlanCase, trace: &Trace, ctx: &mut Ctx) {
                     }
                     return;
                 }
-                if case.empty_starts {
+                if case.empty_starts || case.problems[m.problem.unwrap()].no_start {
                     if tag == "Ok" {
                         ctx.fail(format!("C08:path-from-empty-start-list:{pname}"), "Ok(path) with no start state");
                     }
                     return;
                 }
                 let prob = &case.problems[m.problem.unwrap()];
-                let start_valid = case.world.valid(cfg, &prob.start);
+                let start_valid = case.world_by_index(m.world).valid(cfg, &prob.start);
                 let mut allowed: Vec<&str> = Vec::new();
                 if case.planner == PlannerTag::PRM && m.roadmap_len == 0 {
                     misuse = true;
@@ -150,10 +150,11 @@ pub fn c08_oracle(case: &PlanCase, trace: &Trace, ctx: &mut Ctx) {
     if !in_range {
         ctx.label("parameter-out-of-range");
     }
-    if case.empty_starts {
+    let any_empty = case.empty_starts || case.problems.iter().any(|p| p.no_start);
+    if any_empty {
         ctx.label("empty-start-list");
     }
-    ctx.nontrivial = misuse || fault_reached || !in_range || case.empty_starts;
+    ctx.nontrivial = misuse || fault_reached || !in_range || any_empty;
 }
 
 fn base_case(kind: KindTag, planner: PlannerTag) -> PlanCase {
@@ -209,10 +210,14 @@ fn base_case(kind: KindTag, planner: PlannerTag) -> PlanCase {
             Problem {
                 start: s1,
                 goal: goal(g1),
+                extra_starts: vec![],
+                no_start: false,
             },
             Problem {
                 start: s2,
                 goal: goal(g2),
+                extra_starts: vec![],
+                no_start: false,
             },
         ],
         planner,
@@ -226,6 +231,7 @@ fn base_case(kind: KindTag, planner: PlannerTag) -> PlanCase {
         goal_fail_at: None,
         empty_starts: false,
         query_cap: 400_000,
+        world2: None,
     }
 }
 
@@ -286,7 +292,14 @@ impl Prop for C08 {
                     -0.0,
                 ])
             }
-            4 => c.empty_starts = true,
+            4 => {
+                if ch.prob(0.5) {
+                    c.empty_starts = true
+                } else {
+                    let k = ch.below(c.problems.len());
+                    c.problems[k].no_start = true;
+                }
+            }
             _ => {
                 if ch.prob(0.5) {
                     c.step = ch.pick(&[0.0, -1.0, f64::NAN, f64::INFINITY, 1e-300]);
@@ -359,6 +372,16 @@ impl Prop for C08 {
                 c.ops = std_ops.clone();
                 c.empty_starts = true;
                 emit(c);
+                for which in 0..2 {
+                    let mut c = base_case(kind, planner);
+                    c.problems[which].no_start = true;
+                    c.ops = if planner == PlannerTag::PRM {
+                        vec![Op::Setup(0), Op::Construct { budget: 60 }, Op::Solve { budget: 150 }, Op::Setup(1), Op::Construct { budget: 60 }, Op::Solve { budget: 150 }, Op::SetProblem(0), Op::Solve { budget: 150 }]
+                    } else {
+                        vec![Op::Setup(0), Op::Solve { budget: 150 }, Op::Setup(1), Op::Solve { budget: 150 }, Op::Setup(0), Op::Solve { budget: 150 }]
+                    };
+                    emit(c);
+                }
                 for v in [0.0, -1.0, f64::NAN, f64::INFINITY] {
                     let mut c = base_case(kind, planner);
                     c.ops = std_ops.clone();
